@@ -207,6 +207,30 @@ class Check(Property):
                     v.append(f"C08 {s!r} with case_sensitive=False after the lookups {c['seq']}: {got}, an untouched registry gives {want}")
             return v
         if c["kind"] == "parse_units":
+            # as the definitions read: every spelling names its unit; an offset unit is read as its delta_ counterpart only when
+            # that is asked for (as_delta) AND it stands in a compound expression or carries an exponent other than 1
+            P = regs.pools()
+            u = self.reg(True)
+            from .c01 import expr
+            want = {}
+            try:
+                many = len(c["u"]) > 1
+                for k, e in c["u"]:
+                    pre, rec = P.proj.resolve(k)
+                    name = (pre["name"] if pre else "") + rec["name"]
+                    if c["as_delta"] and not pre and rec.get("conv") == "offset" and (many or Fraction(e) != 1):
+                        name = "delta_" + name
+                    want[name] = want.get(name, Fraction(0)) + Fraction(e)
+                want = {k: x for k, x in want.items() if x != 0}
+            except Exception:  # noqa: BLE001
+                return v
+            try:
+                r = u.parse_units_as_container(expr(c["u"]), as_delta=c["as_delta"])
+                got = {k: regs.to_frac(x) for k, x in r.items()}
+            except Exception as exc:  # noqa: BLE001
+                return [f"C08 parse_units({expr(c['u'])!r}, as_delta={c['as_delta']}): raised {type(exc).__name__}: {exc}"]
+            if got != want:
+                v.append(f"C08 parse_units({expr(c['u'])!r}, as_delta={c['as_delta']}) = {got}, the definitions read {want}")
             return v
         if c["kind"] == "modemix":
             # the default-mode answer after an overridden lookup equals the answer of an untouched registry
